@@ -285,7 +285,10 @@ PROPS = {
 
 
 def props_of(name):
-    return PROPS[name.split(':')[0]]
+    ps = PROPS[name.split(':')[0]]
+    if name.startswith(('frame:cnt', 'frame:items', 'frame:ctr')):
+        ps = ps + ('C06',)
+    return ps
 
 
 def inv_post(c, post):
@@ -647,4 +650,184 @@ def ob_bind(env, N, cap, v1=None, v2=None):
         env.cover('bind replaces an existing label', lambda: vm.feasible(post, z3.Or(*[z3.And(v1 == i, anyhit[i]) for i in range(cap)])))
         env.cover('bind of a vertex holding an unread datum', lambda: vm.feasible(post, z3.And(b1 == 1, c.at(P, v1, 8) == STORED)))
     env.sample({'op': 'bind(v1,v2,a)', 'N': N, 'cap': cap, 'paths': len(outs), 'outcomes': sorted({o.kind for o in outs})})
+    env.account(w)
+
+
+# ====================================================================== readers
+def ob_readers(env, N, cap):
+    """kid / kids / keys / len / is_empty on every Inv state: answers are functions of the abstract
+    state, and the three stores are byte-identical afterwards (&self methods get iter_mut from emap)"""
+    c = Ctx(env, N, cap)
+    w, y, vm = c.w, c.y, c.vm
+    T = c.T(); E = c.E()
+    nobody = lambda key: False
+    # ---- kid(v, a)
+    v, vr = c.vid('v')
+    st = c.pre.fork()
+    a = SymLabel('arg')
+    st.assume(a.wf())
+    st, la = w.make_label(st, a)
+    st.mem.lookup(la).name = 'arg.a'
+    outp = w.scratch(st, 8, 'out')
+    st.assume(vr)
+    st.assume(c.at(T, v) != 0)
+    c.pre = st
+    hit = [[z3.And(z3.UGT(E[i], j), y.ekey[i][j].eq(a)) for j in range(N)] for i in range(cap)]
+    call = {'op': 'kid', 'v': v, 'a': a}
+    outs = vm.run(st, w.pfx + 'kid', [w.g, v, la, outp])
+    for o in outs:
+        if o.kind != 'ret':
+            c.terminal_violation(o, call, ('C03', 'C07'), 'returns')
+            continue
+        post = o.st
+        found = o.value if isinstance(o.value, z3.BoolRef) else (to_bv(o.value, 8) & 1) == 1
+        anyhit = z3.Or(*[z3.And(v == i, hit[i][j]) for i in range(cap) for j in range(N)])
+        cl = [('reader-result:found', found == anyhit)]
+        if vm.feasible(post, found):
+            tgt = to_bv(w.rd(post, outp, 8), 64)
+            cl.append(('reader-result:target', z3.Implies(found, z3.And(*[
+                z3.Implies(z3.And(v == i, hit[i][j]), tgt == y.etgt[i][j]) for i in range(cap) for j in range(N)]))))
+        fr, nd = c.frame(post, nobody)
+        cl += [('reader-pure:' + n, f) for n, f in fr]
+        c.refute(post, cl, call, props_of)
+        env.cover('kid finds the second of two labels', lambda: N < 2 or vm.feasible(post, z3.Or(*[z3.And(v == i, hit[i][1]) for i in range(cap)])))
+        env.cover('kid finds nothing on a vertex with edges', lambda: vm.feasible(post, z3.And(z3.Not(found), c.at(E, v) != 0)))
+    npaths = len(outs)
+    # ---- kids(v)
+    c.pre = st = c.pre.fork()
+    lab_out = w.scratch(st, max(1, N) * w.sz_label, 'out.labels')
+    tgt_out = w.scratch(st, max(1, N) * 8, 'out.targets')
+    call = {'op': 'kids', 'v': v}
+    outs = vm.run(st, w.pfx + 'kids', [w.g, v, lab_out, tgt_out])
+    for o in outs:
+        if o.kind != 'ret':
+            c.terminal_violation(o, call, ('C03', 'C07'), 'returns')
+            continue
+        post = o.st
+        n = to_bv(o.value, 64)
+        cl = [('reader-result:count', n == c.at(E, v))]
+        ent = []
+        for j in range(N):
+            if not vm.feasible(post, z3.UGT(n, j)):
+                continue
+            tj = to_bv(w.rd(post, tgt_out + 8 * j, 8), 64)
+            lj = post.mem.read_cells(lab_out + j * w.sz_label, w.sz_label)
+            for i in range(cap):
+                ent.append(z3.Implies(z3.And(v == i, z3.UGT(n, j)),
+                                      z3.And(tj == y.etgt[i][j], label_cells_eq(c, lj, w.ekey_cells(c.pre, i, j)))))
+        cl.append(('reader-result:entries', z3.And(*ent) if ent else z3.BoolVal(True)))
+        fr, nd = c.frame(post, nobody)
+        cl += [('reader-pure:' + n_, f) for n_, f in fr]
+        c.refute(post, cl, call, props_of)
+    npaths += len(outs)
+    # ---- keys / len / is_empty
+    st = c.pre.fork()
+    kout = w.scratch(st, 8 * cap, 'out.keys')
+    c.pre = st
+    count = U(0)
+    for i in range(cap):
+        count = count + z3.If(T[i] != 0, U(1), U(0))
+    outs = vm.run(st, w.pfx + 'keys', [w.g, kout])
+    for o in outs:
+        call = {'op': 'keys'}
+        if o.kind != 'ret':
+            c.terminal_violation(o, call, ('C01', 'C07'), 'returns')
+            continue
+        post = o.st
+        n = o.value
+        if not isinstance(n, int):
+            n = vm.concretize(post, n)
+        ks = [w.rd(post, kout + 8 * k, 8) for k in range(n)]
+        if not all(isinstance(k, int) for k in ks) or ks != sorted(set(ks)) or any(k >= cap for k in ks):
+            cl = [('keys:ascending-distinct', z3.BoolVal(False))]
+        else:
+            cl = [('keys:exact', z3.And(*[(T[i] != 0) if i in ks else (T[i] == 0) for i in range(cap)]))]
+        fr, nd = c.frame(post, nobody)
+        cl += [('reader-pure:' + n_, f) for n_, f in fr]
+        c.refute(post, cl, call, props_of)
+    env.cover('keys() on a graph with an absent id between present ones', lambda: any(
+        o.kind == 'ret' and cap >= 3 and vm.feasible(o.st, z3.And(T[0] != 0, T[1] == 0, T[2] != 0)) for o in outs))
+    npaths += len(outs)
+    for fn, f in (('len', lambda r: to_bv(r, 64) == count),
+                  ('is_empty', lambda r: ((to_bv(r, 8) & 1) == 1 if not isinstance(r, z3.BoolRef) else r) == (count == 0))):
+        outs = vm.run(st, w.pfx + fn, [w.g])
+        for o in outs:
+            call = {'op': fn}
+            if o.kind != 'ret':
+                c.terminal_violation(o, call, ('C01', 'C07'), 'returns')
+                continue
+            cl = [('keys:' + fn, f(o.value))]
+            fr, nd = c.frame(o.st, nobody)
+            cl += [('reader-pure:' + n_, f_) for n_, f_ in fr]
+            c.refute(o.st, cl, call, props_of)
+        npaths += len(outs)
+    env.sample({'op': 'kid/kids/keys/len/is_empty', 'N': N, 'cap': cap, 'paths': npaths})
+    env.account(w)
+
+
+# ====================================================================== C06: the slot table at full scale
+def ob_bind_slots(env, N, cap, v1=0, v2=1):
+    """bind of two ungrouped vertices when the 14 group slots have ANY occupancy pattern.
+    The pre-state is an over-approximation of Inv: the operands are ungrouped, every slot has an
+    arbitrary member count 0..16 and arbitrary members, an empty slot has counter 0, at least one
+    slot among 2..15 is empty.  (With cap <= 6 Inv itself admits at most three groups; dropping its
+    conjuncts for the other slots only adds pre-states.)  The call must pick a previously empty
+    slot >= 2, leave exactly [v1, v2] there, and touch no other slot."""
+    c = Ctx(env, N, cap, assume_inv=False)
+    w, y, vm = c.w, c.y, c.vm
+    st = c.pre.fork()
+    a = SymLabel('arg')
+    st.assume(a.wf())
+    st, la = w.make_label(st, a)
+    st.mem.lookup(la).name = 'arg.a'
+    T = c.T(); P = c.P(); E = c.E(); CNT = c.CNT(); CTR = c.CTR()
+    st.assume(T[v1] == 1); st.assume(T[v2] == 1)
+    for b in (0, 1):
+        pass        # the reserved slots keep their sentinel (concrete in the symbolic state)
+    for b in range(2, NSLOT):
+        st.assume(z3.ULE(CNT[b], NSLOT))
+        st.assume(z3.Implies(CNT[b] == 0, CTR[b] == 0))
+    st.assume(z3.Or(*[CNT[b] == 0 for b in range(2, NSLOT)]))
+    st.assume(z3.ULT(E[v1], N))      # room for the label
+    if not vm.solver.check(st.pc, want_model=False)[0]:
+        raise Inconclusive("vacuous pre-state")
+    c.pre = st
+    call = {'op': 'bind', 'v1': U(v1), 'v2': U(v2), 'a': a}
+    outs = vm.run(st, w.pfx + 'bind', [w.g, v1, v2, la])
+    chosen = set()
+    for o in outs:
+        if o.kind != 'ret':
+            c.terminal_violation(o, call, ('C06',), 'slot-formed')
+            continue
+        post = o.st
+        T1 = c.T(post); CNT1 = c.CNT(post); CTR1 = c.CTR(post)
+        n1 = T1[v1]
+        unread = z3.If(P[v1] == STORED, U(1), U(0)) + z3.If(P[v2] == STORED, U(1), U(0))
+        it0 = z3.And(*[z3.Implies(n1 == b, z3.And(c.ITEM(post, b, 0) == v1, c.ITEM(post, b, 1) == v2)) for b in range(2, NSLOT)])
+        cl = [('slot-formed:tag', z3.And(n1 == T1[v2], z3.UGE(n1, 2), z3.ULT(n1, NSLOT))),
+              ('slot-formed:was-empty', c.at(CNT, n1) == 0),
+              ('slot-formed:members', z3.And(c.at(CNT1, n1) == 2, it0)),
+              ('slot-formed:counter', c.at(CTR1, n1) == unread)]
+
+        def allowed(key):
+            k = key[0]
+            if k == 'tag':
+                return key[1] in (v1, v2)
+            if k in ('cnt', 'items', 'ctr'):
+                if key[1] < 2:
+                    return False
+                return n1 == key[1]
+            if k in ('elen', 'eval', 'ekey'):
+                return key[1] == v1
+            return False
+        fr, nd = c.frame(post, allowed)
+        cl += [('slot-formed:' + n_, f) for n_, f in fr]
+        c.refute(post, cl, call, props_of)
+        m = vm.get_model(post)
+        if m is not None:
+            chosen.add(m.eval(n1, model_completion=True).as_long())
+    env.cover('every slot 2..15 is chosen on some path', len(chosen) >= NSLOT - 2)
+    env.cover('a path with 13 other slots occupied', lambda: any(
+        o.kind == 'ret' and vm.feasible(o.st, z3.And(*[CNT[b] != 0 for b in range(2, NSLOT - 1)])) for o in outs))
+    env.sample({'op': 'bind(v1,v2) over all slot occupancies', 'N': N, 'cap': cap, 'paths': len(outs), 'slots chosen': sorted(chosen)})
     env.account(w)
